@@ -45,7 +45,10 @@ def mk_record(spec):
         ann["references"] = refs
     if spec.get("linear"):
         return SeqRecord(Seq(spec["seq"]), id=spec["id"], name=spec["id"], description="d", features=feats, annotations=ann)
-    rec = CircularRecord(Seq(spec["seq"]), id=spec["id"], name=spec["id"], description="d", features=feats, annotations=ann)
+    kw = {}
+    if spec.get("letter"):       # per-letter annotations (e.g. the quality values of a sequencing-verified plasmid)
+        kw["letter_annotations"] = {"phred_quality": [(7 * i + len(spec["seq"])) % 41 for i in range(len(spec["seq"]))]}
+    rec = CircularRecord(Seq(spec["seq"]), id=spec["id"], name=spec["id"], description="d", features=feats, annotations=ann, **kw)
     if spec.get("rot"):          # stored with another origin: moved with the library's own operator
         rec = rec >> spec["rot"]
     return rec
